@@ -324,6 +324,16 @@ def run(mon, spec):
     if not (dc.self_check() and cal.self_check()):
         raise RuntimeError("oracle self-check failed")
     kind = _PART[spec["part"]]
-    for y in spec["years"]:
-        mon.begin(kind, [y])
-        CASES[kind](mon, y)
+    years = list(spec["years"])
+    # the order of the queries is part of the workload: a result must not
+    # depend on which years were asked for before.  Shuffled by the run's
+    # seed; the thorough tier adds a descending and an ascending pass.
+    rng = random.Random("%s/%s" % (spec.get("seed", 0), spec["name"]))
+    rng.shuffle(years)
+    passes = [years]
+    if spec.get("tier") == "thorough" and kind in ("easter", "pesach"):
+        passes += [sorted(years, reverse=True), sorted(years)]
+    for ys in passes:
+        for y in ys:
+            mon.begin(kind, [y])
+            CASES[kind](mon, y)
